@@ -32,7 +32,13 @@ type directive struct {
 	Gen  string // gombok | template_gen | monad_gen
 }
 
-const repoRoot = "/repo"
+// repoRoot is /repo; VERIF_REPO overrides it only for trying seeded changes in scratch worktrees.
+var repoRoot = func() string {
+	if v := os.Getenv("VERIF_REPO"); v != "" {
+		return v
+	}
+	return "/repo"
+}()
 
 func findDirectives() ([]directive, error) {
 	var out []directive
